@@ -12,7 +12,12 @@
      C08_SyncGoodbyeBeforeReturn / C08_SyncGoodbyeComplete / C08_SyncNoResurrection
                                 unregister_service: a goodbye before it returns, three in all, nothing positive afterwards
      C07_SyncAdded / C07_SyncRemoved / C07_SyncAlternate    the thread-based browser on the other instance
-     C17_SyncQuiet              nothing is sent by a closed instance, no callback after both are closed                      *)
+     C17_SyncQuiet              nothing is sent by a closed instance, no callback after both are closed (a history marked `solo`
+                                has one instance, living on a loop that keeps running after close() was called from another thread)
+     C04_SyncAlternate / C04_SyncMatchesCache    every instance's callbacks alternate starting with Added -- also for an instance
+                                announced and withdrawn while the listener was busy -- and at every settled point the instances
+                                reported present are those with a pointer record in the cache
+     C18_SyncIff also covers a lookup of an instance whose cached records have all expired and are not purged yet: not found.   *)
 EXTENDS Integers, Sequences, FiniteSets, Json, IOUtils, TLC, TLCExt
 
 ASSUME TLCSet(42, JsonDeserialize(IOEnv.TRACE_FILE))
@@ -22,7 +27,8 @@ N == Len(Traces)
 ClausesOf ==
   [C09 |-> {"C09_SyncProbesFirst", "C09_SyncAnnounced"}, C18 |-> {"C18_SyncIff", "C18_SyncFields", "C18_SyncReturnBy"},
    C08 |-> {"C08_SyncUpdateAnnounced", "C08_SyncGoodbyeBeforeReturn", "C08_SyncGoodbyeComplete", "C08_SyncNoResurrection"},
-   C07 |-> {"C07_SyncAdded", "C07_SyncRemoved", "C07_SyncAlternate"}, C17 |-> {"C17_SyncQuiet"}]
+   C07 |-> {"C07_SyncAdded", "C07_SyncRemoved", "C07_SyncAlternate"}, C17 |-> {"C17_SyncQuiet"},
+   C04 |-> {"C04_SyncAlternate", "C04_SyncMatchesCache"}]
 Own(c) == D.own = "ALL" \/ c \in {"Trace_Malformed", "C15_NoException"} \/ c \in ClausesOf[D.own]
 Bad(cond, c) == cond /\ Own(c)
 
@@ -30,7 +36,7 @@ VARIABLES tid, l, s
 vars == <<tid, l, s>>
 Fail(st, c) == [st EXCEPT !.err = c]
 InitState == [op |-> "", t0 |-> 0, tmo |-> 0, want |-> FALSE, probes |-> 0, anns |-> 0, byes |-> 0, unreg |-> FALSE, posAfter |-> FALSE,
-              live |-> FALSE, everAdded |-> FALSE, browsing |-> FALSE, registered |-> FALSE, closedA |-> FALSE, closedB |-> FALSE, err |-> ""]
+              live |-> FALSE, present |-> {}, everAdded |-> FALSE, browsing |-> FALSE, registered |-> FALSE, closedA |-> FALSE, closedB |-> FALSE, err |-> ""]
 
 OnSend(st, e) ==
   IF Bad((e.who = "A" /\ st.closedA) \/ (e.who = "B" /\ st.closedB), "C17_SyncQuiet") THEN Fail(st, "C17_SyncQuiet")
@@ -57,7 +63,7 @@ OnRet(st, e) ==
     [] OTHER -> Fail(st, "Trace_Malformed")
 
 Step(st, e) ==
-  CASE e.ev = "start" -> InitState
+  CASE e.ev = "start" -> [InitState EXCEPT !.closedB = "solo" \in DOMAIN e]
     [] e.ev = "bstart" -> [st EXCEPT !.browsing = TRUE]
     [] e.ev = "api" -> IF e.op = "lookup" THEN [st EXCEPT !.op = "lookup", !.t0 = e.t, !.tmo = e.timeout, !.want = e.registered]
                        ELSE IF e.op = "unreg" THEN [st EXCEPT !.op = "unreg", !.byes = 0, !.unreg = TRUE]
@@ -66,11 +72,14 @@ Step(st, e) ==
     [] e.ev = "api_ret" -> OnRet(st, e)
     [] e.ev = "send" -> OnSend(st, e)
     [] e.ev = "cb" -> IF Bad(st.closedA /\ st.closedB, "C17_SyncQuiet") THEN Fail(st, "C17_SyncQuiet")
-                      ELSE IF ~e.mine THEN st
-                      ELSE IF e.kind = "add" THEN (IF Bad(st.live, "C07_SyncAlternate") THEN Fail(st, "C07_SyncAlternate") ELSE [st EXCEPT !.live = TRUE, !.everAdded = TRUE])
-                      ELSE IF e.kind = "rem" THEN (IF Bad(~st.live, "C07_SyncAlternate") THEN Fail(st, "C07_SyncAlternate") ELSE [st EXCEPT !.live = FALSE])
+                      ELSE IF e.kind = "add" /\ Bad(e.name \in st.present, "C04_SyncAlternate") THEN Fail(st, "C04_SyncAlternate")
+                      ELSE IF e.kind = "rem" /\ Bad(e.name \notin st.present, "C04_SyncAlternate") THEN Fail(st, "C04_SyncAlternate")
+                      ELSE IF ~e.mine THEN [st EXCEPT !.present = IF e.kind = "add" THEN @ \cup {e.name} ELSE IF e.kind = "rem" THEN @ \ {e.name} ELSE @]
+                      ELSE IF e.kind = "add" THEN (IF Bad(st.live, "C07_SyncAlternate") THEN Fail(st, "C07_SyncAlternate") ELSE [st EXCEPT !.live = TRUE, !.everAdded = TRUE, !.present = @ \cup {e.name}])
+                      ELSE IF e.kind = "rem" THEN (IF Bad(~st.live, "C07_SyncAlternate") THEN Fail(st, "C07_SyncAlternate") ELSE [st EXCEPT !.live = FALSE, !.present = @ \ {e.name}])
                       ELSE st
-    [] e.ev = "settled" -> IF e.what = "updated" /\ Bad(st.browsing /\ ~st.live, "C07_SyncAdded") THEN Fail(st, "C07_SyncAdded")
+    [] e.ev = "settled" -> IF Bad(st.browsing /\ st.present # {e.ptrs[i] : i \in 1..Len(e.ptrs)}, "C04_SyncMatchesCache") THEN Fail(st, "C04_SyncMatchesCache")
+                           ELSE IF e.what = "updated" /\ Bad(st.browsing /\ ~st.live, "C07_SyncAdded") THEN Fail(st, "C07_SyncAdded")
                            ELSE IF e.what = "unregistered" /\ Bad(st.byes < 3, "C08_SyncGoodbyeComplete") THEN Fail(st, "C08_SyncGoodbyeComplete")
                            ELSE IF e.what = "unregistered" /\ Bad(st.browsing /\ st.live, "C07_SyncRemoved") THEN Fail(st, "C07_SyncRemoved")
                            ELSE st
